@@ -277,7 +277,7 @@ func runC16(c *rt.Ctx) {
 		c.Require(f.name+"-prefix-with-emittable-byte", 100)
 	}
 
-	nIDs := c.Pick(200000, 5000000)
+	nIDs := c.Pick(200000, 20000000)
 	c.Parallel("urn", 0, func(w *rt.W) {
 		for i := 0; i < nIDs/w.NShards; i++ {
 			id := uu.ID{Higher: w.Rng.U64(), Lower: w.Rng.U64()}
